@@ -84,7 +84,11 @@ def prefix(tokeniser: 'Tokeniser') -> IPRange:
             mask = 128
 
     tokeniser.afi = IP.toafi(ip)
-    iprange = IPRange(IP.pton(ip), mask)
+    try:
+        iprange = IPRange(IP.pton(ip), mask)
+    except OSError:
+        # inet_pton reports a bad address with OSError, the callers treat ValueError as a refusal
+        raise ValueError(f"'{ip}' is not a valid IP address") from None
 
     if iprange.address() & iprange.mask.hostmask() != 0:
         raise ValueError(
@@ -105,7 +109,10 @@ def next_hop(tokeniser: 'Tokeniser', afi: AFI | None = None) -> tuple[IP | IPSel
     value = tokeniser()
     if value.lower() == 'self':
         return IPSelf(tokeniser.afi), NextHopSelf(tokeniser.afi)
-    ip = IP.from_string(value)
+    try:
+        ip = IP.from_string(value)
+    except OSError:
+        raise ValueError(f"'{value}' is not a valid next-hop\n  Format: <IP address> or self") from None
     if ip.afi == AFI.ipv4 and afi == AFI.ipv6:
         ip = IP.from_string('::ffff:{}'.format(ip))
     return ip, NextHop.from_string(ip.top())
@@ -313,7 +320,7 @@ def aggregator(tokeniser: 'Tokeniser') -> Aggregator:
         as_number, address = agg.split(':')
         local_as = ASN.from_string(as_number)
         local_address = RouterID(address)
-    except (ValueError, IndexError):
+    except (ValueError, IndexError, OSError):
         raise ValueError(
             f"'{agg}' is not a valid aggregator\n"
             f'  Format: <ASN>:<router-id> or (<ASN>:<router-id>) (e.g., 65001:192.0.2.1)'
@@ -332,7 +339,10 @@ def originator_id(tokeniser: 'Tokeniser') -> OriginatorID:
         raise ValueError(f"'{value}' is not a valid originator-id\n  Format: IPv4 address (e.g., 192.0.2.1)")
     if not all(_.isdigit() for _ in value.split('.')):
         raise ValueError(f"'{value}' is not a valid originator-id\n  Format: IPv4 address (e.g., 192.0.2.1)")
-    return OriginatorID.from_string(value)
+    try:
+        return OriginatorID.from_string(value)
+    except OSError:
+        raise ValueError(f"'{value}' is not a valid originator-id\n  Format: IPv4 address (e.g., 192.0.2.1)") from None
 
 
 def cluster_list(tokeniser: 'Tokeniser') -> ClusterList:
